@@ -14,10 +14,15 @@ Encodings (on top of Driver/Proto.lean):
   GNFA_TO_REGEX_ALL <GNFA>            → |R| (ok LABEL | err <Class>)…          (every tie-break)
   GNFA_VALIDATE <GNFA>                → ok | err <Class>
   ISBRACKET STR                       → 0 | 1
-  RX_VALID STR                        → ok 0|1 | err <Class>
+  RX_VALID STR                        → ok 0|1 | err <Class>      (`re._validate` = C10's lexer + validate_tokens)
+  RX_VALID_SIMPLE STR                 → ok 0|1 | err <Class>      (the stand-alone model `simpleRxValid`)
+
+The validator run by the constructors and by GNFA_VALIDATE is `GNFA.reValidate` (Model/GNFARe.lean),
+the model of `re._validate` shared with C10/C11; `simpleRxValid`, which the theorems of Props/C12.lean
+mention, is proved equal to it on strings without `{` (Proofs/GnfaReValidate.lean).
 -/
 import AutomataVerif.Driver.Proto
-import AutomataVerif.Model.GNFA
+import AutomataVerif.Model.GNFARe
 
 namespace AV.Driver.Gnfa
 open AV AV.Proto
@@ -84,11 +89,11 @@ def handle (cmd : String) (args : List String) : Except String String :=
   | "GNFA_FROM_DFA" => run (do
       let d ← dfaC
       let nm ← natMap
-      pure (showRes showGnfa (GNFA.fromDFA simpleRxValid nm d))) args
+      pure (showRes showGnfa (GNFA.fromDFA GNFA.reValidate nm d))) args
   | "GNFA_FROM_NFA" => run (do
       let n ← nfaC
       let nm ← natMap
-      pure (showRes showGnfa (GNFA.fromNFA simpleRxValid nm n))) args
+      pure (showRes showGnfa (GNFA.fromNFA GNFA.reValidate nm n))) args
   | "GNFA_TO_REGEX" => run (do
       let g ← gnfa
       let rips ← many int
@@ -100,11 +105,14 @@ def handle (cmd : String) (args : List String) : Except String String :=
       pure (showList (showRes showLabel) (GNFA.toRegexAll g))) args
   | "GNFA_VALIDATE" => run (do
       let g ← gnfa
-      pure (showRes (fun _ => "") (g.validateStr simpleRxValid))) args
+      pure (showRes (fun _ => "") (g.validateStr GNFA.reValidate))) args
   | "ISBRACKET" => run (do
       let s ← str
       pure (showBool (GNFA.isBracketReq s))) args
   | "RX_VALID" => run (do
+      let s ← str
+      pure (showRes showBool (GNFA.reValidate s))) args
+  | "RX_VALID_SIMPLE" => run (do
       let s ← str
       pure (showRes showBool (simpleRxValid s))) args
   | "PING" => .ok "pong"
